@@ -479,6 +479,26 @@ async function execOneShot(T, run, base) {
     fs.symlinkSync(store, pkgDir, "dir");
     linked++;
   }
+  // PATH ALIASES (one eligible project in three, decided by a hash of the entry file): a tsconfig.json next to the
+  // project file maps "@proj/*" onto the project's source directory and the first relative import of the entry file
+  // is respelled through the alias. Where the host looks for tsconfig.json must not depend on the working directory
+  // of the process or on how the project file was named on the command line (KF-C10-5, repaired in 4c3d33b; seeded change c10l-1).
+  let aliased = false;
+  let aliasAbove = false;
+  {
+    const entryAbs = path.join(rootA, run.project.entry);
+    const entryDir = path.dirname(run.project.entry).replace(/^\/+/, "");
+    const src = fs.existsSync(entryAbs) ? fs.readFileSync(entryAbs, "utf8") : "";
+    const m = /from "\.\/([A-Za-z0-9_\-]+)";/.exec(src);
+    if (m && !fs.existsSync(path.join(rootA, "tsconfig.json")) && fnv32("alias|" + src) % 3 === 0) {
+      fs.writeFileSync(entryAbs, src.replace(m[0], `from "@proj/${m[1]}";`));
+      // (in one such project of two the tsconfig.json sits one directory ABOVE the project file: the search has to go
+      // upwards from the project file's directory, also when that directory was named by a relative path)
+      if (fnv32("alias-above|" + src) % 2 === 0) fs.writeFileSync(path.join(rootA, "tsconfig.json"), JSON.stringify({ compilerOptions: { baseUrl: ".", paths: { "@proj/*": [(entryDir ? entryDir + "/" : "") + "*"] } } }));
+      else (aliasAbove = true), fs.writeFileSync(path.join(base, "tsconfig.json"), JSON.stringify({ compilerOptions: { baseUrl: ".", paths: { "@proj/*": ["proj/" + (entryDir ? entryDir + "/" : "") + "*"] } } }));
+      aliased = true;
+    }
+  }
   fs.symlinkSync(rootA, rootB, "dir");
   const proj = { parser: path.relative(rootA, path.join(rootA, run.project.entry)), outputDir: "e2e_out", stringFormats: run.project.settings.string_formats.map((name) => ({ name })), numberFormats: run.project.settings.number_formats.map((name) => ({ name })) };
   if (run.project.module && run.project.module !== "esm") proj.module = run.project.module;
@@ -516,9 +536,11 @@ async function execOneShot(T, run, base) {
     const variants = [
       { name: "absolute path", project: path.join(rootA, "beff.json"), cwd: base, seed: seeds[0] || 7 },
       { name: "absolute path, other hash keys", project: path.join(rootA, "beff.json"), cwd: base, seed: seeds[1] || 8 },
-      { name: "through a symbolic link to the project directory", project: path.join(rootB, "beff.json"), cwd: base, seed: seeds[0] || 7 },
+      // (a tsconfig.json above the project names the project directory by its real name in "paths": reaching the
+      // project through a link would then be two spellings of one directory by configuration, not a fair comparison)
+      { name: "through a symbolic link to the project directory", project: path.join(aliasAbove ? rootA : rootB, "beff.json"), cwd: base, seed: seeds[0] || 7 },
       { name: "relative to the working directory", project: path.relative(base, path.join(rootA, "beff.json")), cwd: base, seed: seeds[0] || 7 },
-      { name: "working directory inside the project, reached through the link", project: "beff.json", cwd: rootB, seed: seeds[2] || 9 },
+      { name: "working directory inside the project, reached through the link", project: "beff.json", cwd: aliasAbove ? rootA : rootB, seed: seeds[2] || 9 },
     ];
     let baseOut = null;
     for (const v of variants) {
@@ -538,6 +560,8 @@ async function execOneShot(T, run, base) {
       }
     }
     res.linked = linked;
+    res.aliased = aliased;
+    res.aliasedCompiled = aliased && !!(baseOut && baseOut.code);
     res.clash = !!(baseOut && baseOut.code && /node_modules_[A-Za-z0-9_]*_ts__/.test(baseOut.code));
   } catch (e) {
     res.skipped = "case could not be driven: " + String(e && e.stack).slice(0, 300);
@@ -548,6 +572,7 @@ async function execOneShot(T, run, base) {
     process.chdir(cwd0);
     fs.rmSync(rootB, { force: true });
     fs.rmSync(rootA, { recursive: true, force: true });
+    fs.rmSync(path.join(base, "tsconfig.json"), { force: true });
   }
   return res;
 }
@@ -685,6 +710,10 @@ async function runRange(lo, hi) {
       agg.builds_in_watch_sessions += res.builds || 0;
       agg.comparisons_in_which_the_host_printed_diagnostics = (agg.comparisons_in_which_the_host_printed_diagnostics || 0) + (res.printed_compared || 0);
       agg.checkpoints_reached_while_a_watched_file_other_than_the_entry_point_was_gone = (agg.checkpoints_reached_while_a_watched_file_other_than_the_entry_point_was_gone || 0) + (res.compared_while_a_watched_file_was_gone || 0);
+      if (ONESHOT && res.aliased) {
+        agg.projects_with_a_path_alias_in_tsconfig = (agg.projects_with_a_path_alias_in_tsconfig || 0) + 1;
+        if (res.aliasedCompiled) agg.projects_with_a_path_alias_that_compile = (agg.projects_with_a_path_alias_that_compile || 0) + 1;
+      }
       if (idx >= WS_BASE && ONESHOT) {
         agg.projects_with_a_package.projects++;
         agg.projects_with_a_package.packages_laid_out_as_symbolic_links += res.linked || 0;
